@@ -191,6 +191,59 @@ def search_evm(ctx, shapes, budget=6):
     return found
 
 
+KW_SRC = """
+@external
+def f(a: uint256, b: uint256[3] = [7, 8, 9], c: int128[2][2] = [[1, 2], [3, 4]], d: uint8 = 5) -> (uint256, uint256[3], int128[2][2], uint8):
+    return a, b, c, d
+"""
+
+
+def kw_entry_sizes(ctx):
+    """The calldatasize check of cd_entry, per keyword-argument entry point, for MULTI-WORD static keyword arguments
+    (the echo harness of the base check only has one-word and dynamic ones): every entry point f(prefix) must accept the
+    canonical encoding of its prefix tuple (echo = prefix values + defaults) and must revert on every input shorter than
+    4 + static_size(prefix tuple) -- by cd_sound_lv an accepted input has at least that size.  EVM, core configurations.
+    Returns (#executions, list of failing-input details)."""
+    from . import configs as C
+    from .evm import Chain
+    heads = [1, 3, 4, 1]                     # words of a, b, c, d
+    canon = [11, 21, 22, 23, 31, 32, 33, 34, 41]
+    dflt = [0, 7, 8, 9, 1, 2, 3, 4, 5]
+    sigs = ["f(uint256)", "f(uint256,uint256[3])", "f(uint256,uint256[3],int128[2][2])", "f(uint256,uint256[3],int128[2][2],uint8)"]
+    n, bad = 0, []
+    for cfg in C.core_configs():
+        try:
+            c = C.compile_src(KW_SRC, cfg, formats=("bytecode", "method_identifiers"))
+        except Exception as e:  # noqa
+            ctx.log(f"kw entry sizes: {cfg.name}: {type(e).__name__}: {e}"[:200])
+            continue
+        ch = Chain(cfg.evm)
+        addr = ch.deploy(bytes.fromhex(c["bytecode"][2:]))
+        for j, sg in enumerate(sigs):
+            sel = int(c["method_identifiers"][sg], 16).to_bytes(4, "big")
+            nw = sum(heads[:j + 1])
+            args = b"".join(x.to_bytes(32, "big") for x in canon[:nw])
+            want = b"".join(x.to_bytes(32, "big") for x in canon[:nw] + dflt[nw:])
+            cuts = sorted({k for w in range(nw + 1) for k in (32 * w - 1, 32 * w, 32 * w + 1) if 0 <= k < len(args)})
+            for cut in [None] + cuts:
+                data = args if cut is None else args[:cut]
+                r = ch.call(addr, sel + data)
+                n += 1
+                if cut is None and (not r.ok or r.out != want):
+                    txt = "canonical encoding of in-type keyword arguments was rejected or decoded to other values"
+                elif cut is not None and r.ok:
+                    txt = (f"calldata of {4 + len(data)} bytes accepted by an entry point whose static argument tuple needs "
+                           f"{4 + 32 * nw}: the program observed values that are not the decoding of the bytes")
+                else:
+                    continue
+                if len(bad) < 3:
+                    bad.append({"source": KW_SRC, "config": cfg.name, "entry": sg, "how": "call selector(entry) ++ input",
+                                "input_hex": data.hex(), "observed_ok": r.ok, "observed_out": r.out.hex(),
+                                "model": "R" if cut is not None else "=", "expected_out": want.hex() if cut is None else None,
+                                "text": txt})
+    return n, bad
+
+
 def run(ctx):
     """the whole part; returns the number of evaluations"""
     t0 = time.time()
@@ -221,6 +274,14 @@ def run(ctx):
         ctx.log(f"calldata/code search on the EVM: {len(found)} failing inputs in {time.time() - t1:.1f}s")
         for d in found[:3]:
             ctx.violation("failing-input", d["entry"] + ": " + d.pop("text") + " (calldata/code-source decoder)", d)
+    try:
+        nk, kbad = kw_entry_sizes(ctx)
+        n += nk
+        ctx.corr["kw_entry_size_executions"] = nk
+        for d in kbad:
+            ctx.violation("failing-input", "kw entry point: " + d.pop("text"), d)
+    except Exception as e:  # noqa
+        ctx.violation("correspondence-broken", "keyword-argument entry size check could not run", {"error": f"{type(e).__name__}: {e}"[:400]})
     srch = "EVM differential on the offending shapes ran" + ("; failing input reported" if found else "; no failing input")
     if b["err"] is not None:
         ctx.violation("translator-rejected", b["err"], {"error": b["err"], "search": srch})
